@@ -161,6 +161,10 @@ def verify_function(contract: Contract, specs=None, variant=None) -> FunctionRep
             st.vars[a.vararg.arg] = make_input(types.get(a.vararg.arg, "list"), a.vararg.arg, st, ex)
         if a.kwarg is not None:
             st.vars[a.kwarg.arg] = make_input("dict", a.kwarg.arg, st, ex)
+        if contract.opts.get("start_at_loop") is not None:
+            for nme, kind in types.items():
+                if nme not in st.vars:
+                    st.vars[nme] = make_input(kind, nme, st, ex)
         # declared shapes of nested input structure:  {"context.recursion_depth": "int", ...}
         shape = dict(contract.opts.get("shape", {}))
         shape.update(vopts.get("shape", {}))
@@ -195,7 +199,17 @@ def verify_function(contract: Contract, specs=None, variant=None) -> FunctionRep
         site = contract.qual + (f"[{variant}]" if variant else "")
         ex.fn_site = site
         rep.obligations.append(Obligation(f"{site}::cover:pre", "cover", list(st.pc), z3.BoolVal(True), {}, expect="sat"))
-        outs = ex.exec_block(source.strip_docstring(fn.body), st)
+        body = source.strip_docstring(fn.body)
+        sal = contract.opts.get("start_at_loop")
+        if sal is not None:
+            # statement contract (DESIGN §2.5): verify from the k-th loop on; the prelude is dropped and every local the
+            # remaining statements read is an input declared in opts['types']
+            idx = next((i for i, s_ in enumerate(body) if any(ex.loop_ids.get(id(n)) == sal for n in ast.walk(s_))), None)
+            if idx is None:
+                raise OutOfSubset(f"start_at_loop={sal}: no such top-level loop")
+            body = body[idx:]
+            rep.assumptions.append(f"{contract.qual}: verified from loop {sal} onward (prelude dropped; locals {sorted(types)} are inputs)")
+        outs = ex.exec_block(body, st)
         rep.exits = len(outs)
         normal_pcs = []
         counts = {}
@@ -217,8 +231,8 @@ def verify_function(contract: Contract, specs=None, variant=None) -> FunctionRep
                 normal_pcs.append(z3.And(*s2.pc) if s2.pc else z3.BoolVal(True))
                 res = o.payload if (o.sig == "return" and o.payload is not None) else VNone
                 extra = {"result": res}
-                if "yielded" in s2.ghost or contract.opts.get("generator"):
-                    extra["yielded"] = s2.ghost.get("yielded", Val("l", sym.EMPTY_LIST))
+                for gname_ in ex.ghost_names():
+                    extra[gname_] = s2.ghost.get(gname_, Val("l", sym.EMPTY_LIST))
                 for cl in contract.ensures_:
                     g = ex.eval_clause(cl, _post_bound(cl, params_bound, extra), s2, ex.entry_pre, extra)
                     rep.obligations.append(Obligation(f"{site}::post:{cl.name}@{exit_id}", "post", list(s2.pc), g,
@@ -236,6 +250,8 @@ def verify_function(contract: Contract, specs=None, variant=None) -> FunctionRep
                     rep.obligations.append(Obligation(f"{site}::raises-only@{exit_id}", "raises-only", list(s2.pc), g, info))
                 exv = exc.ref if exc.ref is not None else exc
                 extra = {"exc": exv}
+                for gname_ in ex.ghost_names():
+                    extra[gname_] = s2.ghost.get(gname_, Val("l", sym.EMPTY_LIST))
                 for cl in contract.raises_:
                     g = ex.eval_clause(cl, _post_bound(cl, params_bound, extra), s2, ex.entry_pre, extra)
                     rep.obligations.append(Obligation(f"{site}::raises:{cl.name}@{exit_id}", "raises", list(s2.pc), g, dict(info, clause=cl.name, props=cl.props), aux=cl.aux))
@@ -247,7 +263,7 @@ def verify_function(contract: Contract, specs=None, variant=None) -> FunctionRep
         rep.error = f"out of subset: {e}"
     except RecursionError:
         rep.error = "engine recursion limit"
-    rep.assumptions = sorted(ex.assumptions)
+    rep.assumptions = sorted(set(ex.assumptions) | set(rep.assumptions))
     rep.opaque = sorted(ex.opaque_callees)
     return rep
 
